@@ -55,10 +55,27 @@ class Node:
     def tpValues(self):
         return self.kids
 
-    kids2 = kidsx = tpValues
-
     def myid(self):
         return self.nid
+
+
+class NodeK2(Node):
+    """children under another attribute name only (branches=kids2): the node has no tpValues"""
+    tpValues = property()          # reading it raises AttributeError
+
+    def kids2(self):
+        return self.kids
+
+
+class NodeKX(Node):
+    """children handed out by a method that only branches_expr calls: no tpValues either"""
+    tpValues = property()
+
+    def kidsx(self):
+        return self.kids
+
+
+NODE_CLASSES = (Node, NodeK2, NodeKX, Node)          # by source() variant % 4
 
 
 class Response:
@@ -69,11 +86,11 @@ class Response:
             self.cookie = value
 
 
-def build(parent, ids=None):
+def build(parent, ids=None, variant=0):
     """parent: list, parent[i-1] = parent of node i (1-based, node 1 = root, parent 0)"""
     n = len(parent)
     ids = ids or ['n%d' % i for i in range(1, n + 1)]
-    nodes = [Node(ids[i]) for i in range(n)]
+    nodes = [NODE_CLASSES[variant % 4](ids[i]) for i in range(n)]
     for i, nd in enumerate(nodes):
         nd.rank = i + 1
         nd.uid = 'u%d' % (i + 1)         # what the harness identifies rows by; the tag only sees tpId (unique among siblings)
